@@ -19,6 +19,7 @@ import (
 	"go/constant"
 	"go/token"
 	"go/types"
+	"os"
 	"sort"
 	"strconv"
 	"strings"
@@ -140,6 +141,13 @@ type LoopDone struct{ ast.Stmt }
 // LoopBreak is handed to Domain.Visit for every state that leaves a loop
 // through a break statement (before LoopDone).
 type LoopBreak struct{ ast.Stmt }
+
+// CalleeReturn is handed to Domain.Visit for every state in which an inlined callee returns; Entry is the state the
+// callee was entered with (a domain that keeps a stack of open loops drops those the callee left by returning).
+type CalleeReturn struct {
+	ast.Stmt
+	Entry *State
+}
 
 // DomState is the rule-specific part of an abstract state.
 type DomState interface{ Key() string }
@@ -1846,6 +1854,9 @@ func (ip *Interp) dispatch(fr *Frame, st *State, call *ast.CallExpr, c *Callee, 
 
 func (ip *Interp) inline(fr *Frame, st *State, call *ast.CallExpr, f *Func, args []Value) []Out {
 	ip.Inlined[f.Key] = true
+	if debugInline {
+		fmt.Fprintf(os.Stderr, "INLINE d=%d %s <- %s\n", fr.Depth+1, f.Short(), fr.Fn.Short())
+	}
 	nf := &Frame{Fn: f, Depth: fr.Depth + 1, Caller: fr, Call: call, InGo: fr.InGo}
 	ns := st
 	// bind parameters
@@ -1894,7 +1905,8 @@ func (ip *Interp) inline(fr *Frame, st *State, call *ast.CallExpr, f *Func, args
 	var outs []Out
 	seen := map[string]bool{}
 	for _, r := range rets {
-		s := ip.dropDepth(r.St, fr.Depth)
+		s := ip.Dom.Visit(ip, nf, r.St, CalleeReturn{Entry: ns})
+		s = ip.dropDepth(s, fr.Depth)
 		k := s.Key() + "#" + valsKey(r.Vals)
 		if seen[k] {
 			continue
@@ -1939,3 +1951,5 @@ func isBoolType(t types.Type) bool {
 	b, ok := t.Underlying().(*types.Basic)
 	return ok && b.Info()&types.IsBoolean != 0
 }
+
+var debugInline = os.Getenv("VARMQLINT_TRACEINLINE") != ""
